@@ -343,3 +343,11 @@ func hbFormats(enc []byte) (*block.V2HeaderFormat, *block.V2BodyFormat, error) {
 	}
 	return hf, bf, nil
 }
+
+func hbRange(n int) []int {
+	r := make([]int, n)
+	for i := range r {
+		r[i] = i
+	}
+	return r
+}
